@@ -137,7 +137,7 @@ class Hub(object):
             self.truncated = True
             raise env.BoundReached("max_events")
         if self.entry[0] != "max_time":
-            if all(nd.next_event_date == INF for nd in self.Q.active_nodes):
+            if all(nd.next_event_date == INF for nd in self.Q.nodes[:-1]):
                 self.truncated = True
                 raise env.BoundReached("no pending event")
 
@@ -701,6 +701,10 @@ def run(cfg, prefix, monitors, ptags=None, strict=False, keep_Q=False, drive=Non
             raise
         except Exception as exc:
             import traceback
+            # an exception raised by the harness's OWN code (seam classes, menus, hub) is never a verdict about ciw
+            tb = traceback.extract_tb(exc.__traceback__)
+            if tb and os.path.dirname(os.path.abspath(tb[-1].filename)).startswith(os.path.dirname(os.path.abspath(__file__))):
+                raise env.HarnessError("harness code raised %s: %s at %s:%d" % (type(exc).__name__, exc, tb[-1].filename, tb[-1].lineno))
             res.status = "exception"
             res.exception = (type(exc).__name__, str(exc), traceback.format_exc(limit=-4))
         hub._call(hub.h_end, Q, res.status, res.exception)
